@@ -13,9 +13,9 @@ PROP = "C18"
 LEVEL = "proof"
 HASHSEEDS = {"quick": [0, 1, 2, 3], "thorough": [0, 1, 2, 3, 4, 5, 6, 7]}
 BUDGET_S = {"quick": 110, "thorough": 1200}
-EXHAUSTIVE = {"quick": True, "thorough": True}
+EXHAUSTIVE = {"quick": False, "thorough": True}
 RULE = ("closure/entails/is_equivalent: EVERY set of assertions over 3 variables (512 sets of the 9 well-formed "
-        "classes) and every set of <=2 assertions over 4 variables, plus random sets (1-6 assertions, 3-5 variables, "
+        "classes), every single assertion and (thorough: every, quick: a seeded fifth of the) pair of assertions over 4 variables, plus random sets (1-6 assertions, 3-5 variables, "
         "some with overlapping events, duplicates, swapped duplicates): pgmpy closure == as-coded model closure as "
         "sets up to symmetry; as-coded vs repaired model vs an independent brute-force semi-graphoid closure decide "
         "the known finding.  is_iequivalent: every ordered pair of DAGs on <=3 nodes, every DAG on 4 nodes against "
@@ -34,8 +34,31 @@ RULE = ("closure/entails/is_equivalent: EVERY set of assertions over 3 variables
         "(active_trail_nodes, is_dconnected, minimal_dseparator, local_independencies, get_independencies) with FIXED "
         "conditioning sets, each round followed by one edit (remove_edge, remove_edges_from, remove_node, do(inplace), "
         "add_edge, add_node), half of them around a collider x->z<-y, z->w with w observed and z->w removed first, "
-        "every answer against C08's model on the CURRENT graph.  non-trivial: the assertion set is non-empty / "
+        "every answer against C08's model on the CURRENT graph.  " + "" + "non-trivial: the assertion set is non-empty / "
         "the graphs have an edge / the table is not uniform; distinct = canonical input")
+AUDIT = ("generalisation classes: A sessions = streams ses (Independencies), jses (JPD incl. in-place marginal/conditional), "
+         "ged (DAG/BN edits incl. inherited remove_*/clear/do(inplace), is_iequivalent + get_immoralities on the edited "
+         "object), is_imap with a CPD replaced by add_cpds; B argument purity = event/order/context lists, the other "
+         "Independencies object, the other DAG, the joint and the network are compared with snapshots after the call; "
+         "C result independence = closure(), get_independencies, minimal_imap, get_immoralities, marginal/conditional "
+         "results are mutated and the call repeated, tables are constructed from list / ndarray / reused buffer / "
+         "other.values; D pandas: not applicable (no DataFrame reaches these APIs); E names = substring families "
+         "(x, x1, x10, G, G2), int and mixed int/str names (tuple names are excluded for JPD because marginal_distribution "
+         "documents a tuple argument as a collection; IndependenceAssertion takes strings only); F state names: not "
+         "applicable, JointProbabilityDistribution has no state-name argument, states are positions; G sizes = 9-11 node "
+         "DAGs, 9-10 variable tables (jbig), cardinality-1 variables, single-variable tables, empty events, empty "
+         "assertion sets, edgeless graphs; closure universes stay <= 5 variables (the model's fuel is 8^n); H magnitudes "
+         "= cells of mass 2^-30..2^-45, perturbations 2^-22 below the allclose tolerance, exact zeros and zero-probability "
+         "contexts; verdicts are compared with the model's tolerance form on the exact rationals; I backends: only "
+         "is_imap runs under torch (the JPD constructor applies np.sum to its values, so every method that copies the "
+         "table raises under torch on the unchanged tree); DAG and Independencies are pure python; J variants = all three "
+         "event3 modes, None/[]/() for an absent event3, list/tuple/set/single arguments, inplace True/False/default; "
+         "K rejected calls = later invalid assertion in add_assertions (earlier ones stay), string events, non-string "
+         "event3, out-of-range state, unknown context variable, non-normalised table, wrong-type is_imap/is_iequivalent/"
+         "contains arguments, state unchanged afterwards; L orders = hash seeds, assertion order (reversed twin), shuffled "
+         "edge insertion, every variable order for minimal_imap, random conditioning order, random CPD insertion and "
+         "parent order; M budget: handled by tools/check.py")
+RULE = RULE + "  " + AUDIT
 TRUSTED_BASE = ["DiscreteFactor marginalize/product/reduce/normalize and numpy.allclose (the model takes marginals as "
                 "sums of cells; factor algebra is property C01's subject)",
                 "networkx DiGraph storage, to_undirected, EdgeView equality",
@@ -100,8 +123,9 @@ def cases(tier, seed):
     for i in range(len(c4)):
         out.append({"kind": "clo", "n": 4, "A": [c4[i]], "qseed": i})
         for k in range(i + 1, len(c4)):
-            out.append({"kind": "clo", "n": 4, "A": [c4[i], c4[k]], "qseed": i * 100 + k})
-    nrand = 300 if tier == "quick" else 4000
+            if tier == "thorough" or rng.random() < 0.22:   # quick: a seeded fifth of the 1485 pairs
+                out.append({"kind": "clo", "n": 4, "A": [c4[i], c4[k]], "qseed": i * 100 + k})
+    nrand = 140 if tier == "quick" else 4000
     for i in range(nrand):
         n = rng.choice((3, 4, 4, 4, 5))
         m = rng.randint(1, 6 if n < 5 else 3)
@@ -127,29 +151,37 @@ def cases(tier, seed):
             hs = list(skel[frozenset(frozenset(x) for x in e)]) + [rng.randrange(len(d4)) for _ in range(6)]
         out.append({"kind": "ieq", "n": 4, "g": gi, "hs": hs})
     for i in range(150 if tier == "quick" else 2000):
-        n = rng.randint(3, 7)
+        n = rng.randint(3, 7) if rng.random() < 0.8 else rng.randint(9, 11)   # >= 9 nodes: sets of small ints
         nodes, edges = common.rand_dag(rng, n)
-        out.append({"kind": "ieqr", "n": n, "edges": edges, "style": rng.choice(common.NAME_STYLES),
+        out.append({"kind": "ieqr", "n": n, "edges": edges, "style": rng.choice(common.NAME_STYLES + ["substr", "int"]),
                     "qseed": rng.randint(0, 10**9)})
     # ---- (c) joint tables
-    for i in range(200 if tier == "quick" else 2600):
-        out.append({"kind": "jpd", "shape": rng.choice(SHAPES), "qseed": rng.randint(0, 10**9)})
+    for i in range(110 if tier == "quick" else 2600):
+        out.append({"kind": "jpd", "shape": rng.choice(SHAPES), "qseed": rng.randint(0, 10**9),
+                    "torch": rng.random() < (0.06 if tier == "quick" else 0.1)})
     # ---- (d) sessions: ONE object, interleaved queries and mutations, compared after every step
-    for i in range(260 if tier == "quick" else 2600):
-        out.append({"kind": "ses", "n": rng.choice((3, 3, 4, 4, 4, 5)), "steps": rng.randint(2, 6),
+    for i in range(90 if tier == "quick" else 2600):
+        nn = rng.choice((3, 3, 4, 4, 4, 5)) if tier == "thorough" or rng.random() < 0.06 else rng.choice((3, 3, 4, 4))
+        out.append({"kind": "ses", "n": nn, "steps": rng.randint(2, 6),
                     "qseed": rng.randint(0, 10**9)})
-    for i in range(90 if tier == "quick" else 900):
-        out.append({"kind": "jses", "shape": rng.choice(SHAPES), "steps": rng.randint(2, 6),
+    for i in range(130 if tier == "quick" else 1500):
+        out.append({"kind": "jses", "shape": rng.choice(SHAPES + ["tiny", "card1", "single"]), "steps": rng.randint(2, 6),
+                    "style": rng.choice(["str", "str", "substr", "substr", "int", "mixed"]),
+                    "route": rng.choice(["list", "ndarray", "buffer", "other.values"]),
+                    "qseed": rng.randint(0, 10**9)})
+    # ---- (c') nine and more variables in one table (iteration order of sets of small ints changes at 8)
+    for i in range(16 if tier == "quick" else 200):
+        out.append({"kind": "jbig", "nv": rng.choice((9, 9, 10)), "style": rng.choice(["str", "int", "substr"]),
                     "qseed": rng.randint(0, 10**9)})
     # ---- (e) graph-edit sessions: ONE DAG / BayesianNetwork object, query - edit - query with the SAME conditioning sets
-    for i in range(220 if tier == "quick" else 2200):
+    for i in range(120 if tier == "quick" else 2200):
         n = rng.randint(4, 6)
         _, edges = common.rand_dag(rng, n)
         out.append({"kind": "ged", "n": n, "edges": edges, "gadget": rng.random() < 0.5,
                     "cls": rng.choice(["DAG", "DAG", "BN"]), "rounds": rng.randint(2, 4),
                     "qseed": rng.randint(0, 10**9)})
     # sessions first: they must not be the ones dropped if the budget runs out on a loaded machine
-    out.sort(key=lambda c: 0 if c["kind"] in ("ses", "jses", "ged") else 1)
+    out.sort(key=lambda c: 0 if c["kind"] in ("ses", "jses", "ged", "jbig") else 1)
     return out
 
 
@@ -168,7 +200,7 @@ def shrink(case):
 
 
 # ------------------------------------------------------------------ (a) closure
-NAMEPOOL = ["X", "Y", "Z", "W", "V", "x1", "x2", "alpha", "b", "Ab", "q_0", "u v"]
+NAMEPOOL = ["X", "Y", "Z", "W", "V", "x1", "x10", "x", "alpha", "b", "Ab", "q_0", "u v", "G", "G2", "X1"]
 
 
 def canon_a(e1, e2, e3):
@@ -327,7 +359,19 @@ def mk_dag(names, edges, extra=()):
 
 
 def cmp_ieq(drv, g, h, eg, eh, where):
+    hn, he = list(h.nodes()), list(h.edges())
     got = g.is_iequivalent(h)
+    if list(h.nodes()) != hn or list(h.edges()) != he:
+        return bad("impl!=spec:is_iequivalent-mutates-argument", dict(where))
+    # get_immoralities(): the parent pairs of the v-structures; the returned set belongs to the caller
+    exp_im = {frozenset(k[0]) for k in py_vstructs([(a, b) for a, b in g.edges()])}
+    im = g.get_immoralities()   # mixed-type parent names are legal (fixed 2fa299f); compared as unordered pairs
+    if {frozenset(t) for t in im} != exp_im or any(len(t) != 2 for t in im):
+        return bad("impl!=model:get_immoralities", dict(where, impl=sorted(map(str, im))))
+    im.add(("junk", "junk2"))
+    im2 = g.get_immoralities()
+    if im2 is im or {frozenset(t) for t in im2} != exp_im:
+        return bad("impl!=spec:get_immoralities-result-aliased", dict(where))
     m, vg, vh = drv.call("c18_iequiv", [[list(e) for e in eg], [list(e) for e in eh]])
     spec = py_skeleton(eg) == py_skeleton(eh) and py_vstructs(eg) == py_vstructs(eh)
     if {(frozenset((a, b)), c) for a, b, c in vg} != py_vstructs(eg):
@@ -405,7 +449,12 @@ def run_ieqx(case, drv):
 def run_ieqr(case, drv):
     rng = random.Random(case["qseed"])
     n = case["n"]
-    names = common.node_names(rng, n, case["style"])
+    if case["style"] == "substr":
+        names = rng.sample(["x", "x1", "x10", "x11", "G", "G2", "G20", "1", "10", "a", "ab", "abc", "n", "node"], n)
+    elif case["style"] == "int":
+        names = rng.sample(range(0, n + 4), n)
+    else:
+        names = common.node_names(rng, n, case["style"])
     eg = [tuple(e) for e in case["edges"]]
     tags = ["iequiv random n=%d style=%s" % (n, case["style"])]
     for t in range(6):
@@ -435,6 +484,7 @@ def run_ieqr(case, drv):
 
 
 # ------------------------------------------------------------------ (c) joint tables
+JNAMES = ["a", "b", "c", "d", "x1", "x10", "x", "Z", "long name", "G", "G2", "name"]
 SHAPES = ["product", "condind", "xor", "context", "generic", "zeros", "perturbed", "two-dependent", "chain"]
 
 
@@ -549,7 +599,7 @@ def run_jpd(case, drv):
     else:
         cards, cells = make_table(rng, case["shape"])
     nv = len(cards)
-    names = rng.sample(["a", "b", "c", "d", "x1", "x2", "Z", "long name"], nv)
+    names = rng.sample(JNAMES, nv)
     asg = list(itertools.product(*map(range, cards)))
     assert sum(cells.values()) == 1
     vals = np.array([float(cells[a]) for a in asg])
@@ -592,6 +642,8 @@ def run_jpd(case, drv):
         if got is not exp:
             return bad("impl!=model:check_independence-context", {"cards": cards, "cells": [str(cells[a]) for a in asg],
                                                                     "e1": e1, "e2": e2, "ctx": ctx, "impl": got, "model": x_tol, "exact": x_ex}, key=key)
+        if n1 != [names[v] for v in e1] or n2 != [names[v] for v in e2]:
+            return bad("impl!=spec:check_independence-mutates-argument", {"e1": e1, "e2": e2}, key=key)
         tags.append("check mode=rv |Z|=%d -> %s" % (len(zs), bool(c_tol)))
         tags.append("check mode=context -> %s" % exp)
         if m_ex != m_tol or c_ex != c_tol or x_ex != x_tol:
@@ -630,9 +682,12 @@ def run_jpd(case, drv):
     # ---- is_imap on the graphs of this table's minimal_imap results and on random DAGs (positive tables only)
     positive = all(v > 0 for v in cells.values())
     if positive:
-        for _ in range(2):
+        for rep in range(2):
             _, edges = common.rand_dag(rng, nv)
-            b = check_is_imap(drv, jpd, J, names, cards, cells, asg, edges, key)
+            use_torch = case.get("torch", False) and rep == 0
+            b = check_is_imap(drv, jpd, J, names, cards, cells, asg, edges, key, rng=rng, torch=use_torch)
+            if use_torch:
+                tags.append("is_imap backend=torch")
             if b:
                 return b
             tags.append("is_imap")
@@ -703,34 +758,82 @@ def py_factorizes(cards, cells, edges):
     return True
 
 
-def check_is_imap(drv, jpd, J, names, cards, cells, asg, edges, key):
-    """BN over `edges` whose CPDs are the joint's own conditionals: is_imap must say whether the joint factorises"""
+def check_is_imap(drv, jpd, J, names, cards, cells, asg, edges, key, rng=None, torch=False):
+    """BN over `edges` whose CPDs are the joint's own conditionals: is_imap must say whether the joint factorises.
+    Session part: one CPD is then replaced in place (add_cpds of an existing variable) and is_imap asked again on the
+    same objects; CPDs are added in a random order; optionally under the torch backend."""
     from pgmpy.models import BayesianNetwork
     from pgmpy.factors.discrete import TabularCPD
+    import numpy as np
+    rng = rng or random.Random(0)
     nv = len(cards)
     bn = BayesianNetwork()
     bn.add_nodes_from(names)
     bn.add_edges_from([(names[u], names[v]) for u, v in edges])
-    prod = {a: Fraction(1) for a in asg}
+    tabs, cols_of, pas = {}, {}, {}
     for v in range(nv):
         pa = sorted(u for u, w in edges if w == v)
+        rng.shuffle(pa)
         cols = list(itertools.product(*[range(cards[u]) for u in pa]))
-        tab = [[py_marg(cards, cells, [v] + pa, [s] + list(c)) / py_marg(cards, cells, pa, list(c)) for c in cols]
-               for s in range(cards[v])]
-        bn.add_cpds(TabularCPD(names[v], cards[v], [[float(x) for x in row] for row in tab],
-                               evidence=[names[u] for u in pa] or None, evidence_card=[cards[u] for u in pa] or None))
-        for a in asg:
-            prod[a] *= tab[a[v]][cols.index(tuple(a[u] for u in pa))]
-    exact = all(prod[a] == cells[a] for a in asg)
-    tol = all(abs(prod[a] - cells[a]) <= ATOL + RTOL * abs(cells[a]) for a in asg)
+        tabs[v] = [[py_marg(cards, cells, [v] + pa, [s] + list(c)) / py_marg(cards, cells, pa, list(c)) for c in cols]
+                   for s in range(cards[v])]
+        cols_of[v], pas[v] = cols, pa
+
+    def cpd(v):
+        return TabularCPD(names[v], cards[v], [[float(x) for x in row] for row in tabs[v]],
+                          evidence=[names[u] for u in pas[v]] or None, evidence_card=[cards[u] for u in pas[v]] or None)
+
+    def verdicts():
+        prod = {a: Fraction(1) for a in asg}
+        for v in range(nv):
+            for a in asg:
+                prod[a] *= tabs[v][a[v]][cols_of[v].index(tuple(a[u] for u in pas[v]))]
+        return (all(prod[a] == cells[a] for a in asg),
+                all(abs(prod[a] - cells[a]) <= ATOL + RTOL * abs(cells[a]) for a in asg))
+
+    order = list(range(nv))
+    rng.shuffle(order)
     m = bool(drv.call("c18_factorizes", [J[0], J[1], J[2], [list(e) for e in edges]]))
-    if m != exact:
-        return bad("model!=spec:factorizes", {"cards": cards, "cells": [str(cells[a]) for a in asg], "edges": edges}, key=key)
-    g1 = jpd.is_imap(bn)
-    g2 = bn.is_imap(jpd)
-    if g1 is not tol or g2 is not tol:
-        return bad("impl!=model:is_imap", {"cards": cards, "cells": [str(cells[a]) for a in asg], "edges": edges,
-                                            "impl": [g1, g2], "expected": tol, "exact": exact}, key=key)
+    before = np.array(jpd.values, dtype=float).copy()
+    if torch:
+        from pgmpy import config
+        config.set_backend("torch")
+    try:
+        if torch:
+            from pgmpy.factors.discrete import JointProbabilityDistribution as JPD
+            jq = JPD(list(names), list(cards), [float(cells[a]) for a in asg])
+        else:
+            jq = jpd
+        for v in order:
+            bn.add_cpds(cpd(v))
+        for stage in ("own-conditionals", "one-cpd-replaced"):
+            exact, tol = verdicts()
+            if stage == "own-conditionals" and m != exact:
+                return bad("model!=spec:factorizes", {"cards": cards, "cells": [str(cells[a]) for a in asg], "edges": edges}, key=key)
+            g1 = jq.is_imap(bn)
+            g2 = bn.is_imap(jq)
+            if g1 is not tol or g2 is not tol:
+                return bad("impl!=model:is_imap", {"cards": cards, "cells": [str(cells[a]) for a in asg], "edges": edges,
+                                                    "stage": stage, "torch": torch, "cpd_order": order,
+                                                    "impl": [g1, g2], "expected": tol, "exact": exact}, key=key)
+            # replace the CPD of one variable by a different (uniform-ish) one, on the same network object
+            v = rng.randrange(nv)
+            w_ = [Fraction(1, cards[v])] * cards[v] if cards[v] != 3 else [Fraction(1, 2), Fraction(1, 4), Fraction(1, 4)]
+            tabs[v] = [[w_[s_]] * len(cols_of[v]) for s_ in range(cards[v])]
+            bn.add_cpds(cpd(v))
+            if len(bn.get_cpds()) != nv:
+                return bad("impl!=model:is_imap-add_cpds-does-not-replace", {"edges": edges}, key=key)
+        for bad_arg, f in (("jpd.is_imap(non-network)", lambda: jq.is_imap(jq)), ("bn.is_imap(non-joint)", lambda: bn.is_imap(bn))):
+            try:
+                f()
+                return bad("impl!=model:is_imap-accepts-wrong-type", {"call": bad_arg}, key=key)
+            except TypeError:
+                pass
+    finally:
+        if torch:
+            config.set_backend("numpy")
+    if not np.array_equal(np.array(jpd.values, dtype=float), before):
+        return bad("impl!=spec:is_imap-mutated-the-joint", {"edges": edges}, key=key)
     return None
 
 
@@ -804,7 +907,7 @@ def run_ses(case, drv):
         coded, fixed = drv.call("c18_closure", [lst])
         return [t for t in (coded + fixed)]
 
-    ops = ["closure", "entails", "equiv-same", "contains", "add", "add-other", "get", "reduce", "alias"]
+    ops = ["closure", "entails", "equiv-same", "contains", "add", "add-other", "get", "reduce", "alias", "reject"]
     # every session has at least one  query -> add -> query  sequence
     plan = [rng.choice(ops) for _ in range(case["steps"])]
     plan = [rng.choice(["closure", "entails", "equiv-same"])] + ["add"] + plan
@@ -854,6 +957,38 @@ def run_ses(case, drv):
                 tgt.add_assertions(*[tuple(tuple(names[i] for i in e) for e in a) if a[2] else
                                      (tuple(names[i] for i in a[0]), tuple(names[i] for i in a[1])) for a in new])
             lst.extend(new)
+        elif op == "reject":
+            # a multi-argument call whose LATER argument is invalid: the earlier ones are in, nothing else changes
+            good = rand_assertion(rng, n)
+            gl = [[names[i] for i in e] for e in good]
+            how = rng.choice(["short", "empty-event2", "contains-non-assertion", "constructor"])
+            trace[-1] = ["reject", how, good]
+            try:
+                if how == "short":
+                    obj.add_assertions(gl, [names[0]])
+                    return bad("impl!=model:session-accepts-one-event-assertion", where(), key=key)
+                elif how == "empty-event2":
+                    obj.add_assertions(gl, [names[0], []])
+                    return bad("impl!=model:session-accepts-empty-event2", where(), key=key)
+                elif how == "contains-non-assertion":
+                    obj.contains(gl)
+                    return bad("impl!=model:session-contains-accepts-list", where(), key=key)
+                else:
+                    for args in ((names[0],), ([], names[0]), (names[0], [], names[1])):
+                        try:
+                            IndependenceAssertion(*args)
+                            return bad("impl!=model:assertion-constructor-accepts", where(args=list(map(str, args))), key=key)
+                        except ValueError:
+                            pass
+            except (IndexError, ValueError) as ex:
+                if how not in ("short", "empty-event2") or not isinstance(ex, IndexError if how == "short" else ValueError):
+                    raise
+                cur.append(good)
+            except TypeError:
+                if how != "contains-non-assertion":
+                    raise
+            if gl != [[names[i] for i in e] for e in good]:
+                return bad("impl!=spec:session-add_assertions-mutates-argument", where(), key=key)
         elif op == "get":
             if canon_impl(obj.get_assertions()) != canon_m(cur) or canon_impl(other.get_assertions()) != canon_m(oth):
                 return bad("impl!=model:session-get_assertions", where(impl=canon_impl(obj.get_assertions())), key=key)
@@ -877,6 +1012,8 @@ def run_ses(case, drv):
         # after EVERY step: the object's own list, its closure and an entailment query, against the model on `cur`
         if canon_impl(obj.get_assertions()) != canon_m(cur):
             return bad("impl!=model:session-state", where(impl=canon_impl(obj.get_assertions())), key=key)
+        if canon_impl(other.get_assertions()) != canon_m(oth):
+            return bad("impl!=spec:session-query-mutated-the-other-object", where(impl=canon_impl(other.get_assertions())), key=key)
         r, b = q_closure(obj, cur, "after-" + (op if isinstance(op, str) else op[0]))
         if b:
             return b
@@ -895,114 +1032,337 @@ def run_ses(case, drv):
     return ok(nontrivial=True, key=key, tags=tags)
 
 
+def jnames(rng, nv, style):
+    if style == "str":
+        return rng.sample(JNAMES, nv)
+    if style == "substr":
+        return rng.sample(["x", "x1", "x10", "x11", "G", "G2", "G20", "a", "ab", "abc", "1", "10"], nv)
+    if style == "int":
+        return rng.sample(range(1, nv + 12), nv)
+    # no tuple names: marginal_distribution documents a tuple ARGUMENT as a collection of variables
+    pool = ["y", 7, "x1", 11, "x10", 3, "G", 10]
+    return rng.sample(pool, nv)
+
+
+def cond_table(names_i, cards, cells, cz):
+    """exact conditional table given the context cz = [(position, state)...]: (positions kept, cards, cells)"""
+    keep = [v for v in range(len(cards)) if v not in [u for u, _ in cz]]
+    pz = py_marg(cards, cells, [v for v, _ in cz], [x for _, x in cz])
+    out = {}
+    for a in itertools.product(*[range(cards[v]) for v in keep]):
+        out[a] = py_marg(cards, cells, keep + [v for v, _ in cz], list(a) + [x for _, x in cz]) / pz
+    return keep, [cards[v] for v in keep], out
+
+
 def run_jses(case, drv):
-    """one JointProbabilityDistribution object through interleaved queries; non-inplace operations must leave it
-    unchanged and every answer must be the model's answer on the ORIGINAL table"""
+    """one JointProbabilityDistribution object through interleaved queries, non-inplace operations (which must leave
+    it unchanged), IN-PLACE marginalisation / conditioning (after which every answer is the model's on the NEW
+    table), rejected calls, and mutation of returned objects and of the construction buffer"""
     import numpy as np
     from pgmpy.factors.discrete import JointProbabilityDistribution as JPD
     rng = random.Random(case["qseed"])
-    cards, cells = make_table(rng, case["shape"])
+    shape = case["shape"]
+    if shape == "single":
+        cards, cells = [rng.choice((2, 3))], None
+        col = common.rand_column(rng, cards[0])
+        cells = {(i,): col[i] for i in range(cards[0])}
+    elif shape == "card1":
+        cards, cells = make_table(rng, "generic")
+        k = rng.randrange(len(cards) + 1)       # insert a cardinality-1 variable
+        cards = cards[:k] + [1] + cards[k:]
+        cells = {a[:k] + (0,) + a[k:]: p for a, p in cells.items()}
+    elif shape == "tiny":
+        # product of two blocks, one cell of mass 2^-40 (exact in binary64), so marginals span 12 decimal orders
+        cards = [2, 2, 2]
+        e = Fraction(1, 1 << rng.choice((30, 40, 45)))
+        pa = [e, 1 - e]
+        pb = {0: [Fraction(1, 4), Fraction(3, 4)], 1: [Fraction(1, 2), Fraction(1, 2)]}
+        dep = rng.random() < 0.5
+        cells = {(a, b, c): pa[a] * Fraction(1, 2) * (pb[b if dep else 0][c]) for a in range(2) for b in range(2) for c in range(2)}
+        if not all(Fraction(float(v)) == v for v in cells.values()):
+            cards, cells = make_table(rng, "generic")
+    else:
+        cards, cells = make_table(rng, shape)
     nv = len(cards)
-    names = rng.sample(["a", "b", "c", "d", "x1", "x2", "Z", "long name"], nv)
+    names = jnames(rng, nv, case.get("style", "str"))
+    strnames = all(isinstance(x, str) for x in names)
     asg = list(itertools.product(*map(range, cards)))
     vals = np.array([float(cells[a]) for a in asg])
-    jpd = JPD(names, cards, vals)
-    V = list(range(nv))
-    J = [V, cards, [[list(a), cells[a]] for a in asg]]
-    key = common.canon_key(["jses", cards, [str(cells[a]) for a in asg], case["qseed"], case["steps"]])
+    route = case.get("route", "list")
+    if route == "list":
+        jpd = JPD(list(names), list(cards), [float(x) for x in vals])
+    elif route == "ndarray":
+        jpd = JPD(list(names), np.array(cards), vals.reshape(cards))
+    elif route == "buffer":
+        buf = np.ascontiguousarray(vals.copy(), dtype=np.float64)
+        jpd = JPD(list(names), list(cards), buf)
+        buf[:] = -1.0                                   # the caller reuses its buffer
+    else:
+        j0 = JPD(list(names), list(cards), vals.copy())
+        jpd = JPD(list(names), list(cards), j0.values)
+        j0.values[...] = 0.0
+    st = {"names": list(names), "cards": list(cards), "cells": dict(cells)}
+    key = common.canon_key(["jses", cards, [str(cells[a]) for a in asg], case["qseed"], case["steps"], route, list(map(str, names))])
     trace = []
-    tags = ["jpd-session vars=%d steps=%d" % (nv, case["steps"])]
-    cs = [str(cells[a]) for a in asg]
+    tags = ["jpd-session vars=%d steps=%d" % (nv, case["steps"]), "jpd-session names=%s" % case.get("style", "str"),
+            "jpd-session construct=%s" % route, "jpd-session shape=%s" % shape]
 
-    def unchanged():
-        return (list(jpd.variables) == names and list(jpd.cardinality) == cards
-                and jpd.values.shape == tuple(cards) and np.array_equal(jpd.values.ravel(), vals))
+    def J():
+        a_ = list(itertools.product(*map(range, st["cards"])))
+        return [list(range(len(st["cards"]))), st["cards"], [[list(a), st["cells"][a]] for a in a_]]
+
+    def w(**kw):
+        a_ = list(itertools.product(*map(range, st["cards"])))
+        d = {"names": list(map(str, names)), "cards0": cards, "cells0": [str(cells[a]) for a in asg], "route": route,
+             "trace": trace, "cards_now": st["cards"], "cells_now": [str(st["cells"][a]) for a in a_]}
+        d.update(kw)
+        return d
+
+    def same_state():
+        if list(jpd.variables) != st["names"] or [int(c) for c in jpd.cardinality] != st["cards"]:
+            return False
+        if tuple(jpd.values.shape) != tuple(st["cards"]):
+            return False
+        for a in itertools.product(*map(range, st["cards"])):
+            if not common.approx(jpd.values[a], st["cells"][a], 1e-12):
+                return False
+        return True
 
     def factor_cells(f):
-        """{assignment over f's variables (by variable index, sorted) -> float}"""
-        vs = [names.index(v) for v in f.variables]
-        out = {}
-        for a in itertools.product(*[range(cards[v]) for v in vs]):
-            out[tuple(sorted(zip(vs, a)))] = float(f.values[a])
-        return out
+        pos = [st["names"].index(v) for v in f.variables]
+        return {tuple(sorted(zip(pos, a))): float(f.values[a]) for a in itertools.product(*[range(st["cards"][v]) for v in pos])}
 
-    ops = ["check-marg", "check-rv", "check-ctx", "getind", "marginal", "conditional", "copy"]
+    if not same_state():
+        return bad("impl!=spec:jpd-construction-aliases-the-buffer", w(), key=key)
+    ops = ["check-marg", "check-rv", "check-ctx", "getind", "marginal", "conditional", "copy", "marginal-inplace",
+           "conditional-inplace", "reject", "minimal_imap", "empty-event"]
     plan = [rng.choice(["conditional", "check-ctx", "getind", "marginal"])] + [rng.choice(ops) for _ in range(case["steps"])]
     for op in plan:
+        nvn = len(st["cards"])
+        V = list(range(nvn))
+        nm = st["names"]
+        cd = st["cards"]
         perm = V[:]
         rng.shuffle(perm)
         e1, e2, rest = perm[:1], perm[1:2], perm[2:]
         zs = rest[:rng.randint(0, len(rest))]
-        ctx = [[v, rng.randrange(cards[v])] for v in zs]
+        ctx = [[v, rng.randrange(cd[v])] for v in zs]
         trace.append([op, e1, e2, ctx])
-        w = {"cards": cards, "cells": cs, "trace": trace}
-        if op.startswith("check"):
-            m_ex, m_tol, c_ex, c_tol, x_ex, x_tol = drv.call("c18_checkind", [J[0], J[1], J[2], e1, e2, zs, ctx, ATOL, RTOL])
-            n1, n2 = [names[v] for v in e1], [names[v] for v in e2]
+        if op.startswith("check") and e2:
+            m_ex, m_tol, c_ex, c_tol, x_ex, x_tol = drv.call("c18_checkind", J()[:3] + [e1, e2, zs, ctx, ATOL, RTOL])
+            n1, n2 = [nm[v] for v in e1], [nm[v] for v in e2]
+            a1, a2 = list(n1), list(n2)
             if op == "check-marg":
-                got, exp = jpd.check_independence(n1, n2), bool(m_tol)
+                got, exp = jpd.check_independence(a1, a2, rng.choice([None, [], ()])), bool(m_tol)
             elif op == "check-rv":
-                got, exp = jpd.check_independence(n1, n2, [names[v] for v in zs], condition_random_variable=True), bool(c_tol)
+                a3 = [nm[v] for v in zs]
+                a3 = tuple(a3) if rng.random() < 0.3 else a3
+                if all(isinstance(nm[v], str) for v in zs):
+                    got, exp = jpd.check_independence(a1, a2, a3, condition_random_variable=True), bool(c_tol)
+                else:
+                    try:
+                        jpd.check_independence(a1, a2, a3, condition_random_variable=True)
+                        return bad("impl!=model:session-check_independence-accepts-non-string-event3", w(), key=key)
+                    except TypeError:
+                        got = exp = None
             else:
+                a3 = [(nm[v], x) for v, x in ctx]
+                snap = list(a3)
                 try:
-                    got = jpd.check_independence(n1, n2, [(names[v], s) for v, s in ctx])
+                    got = jpd.check_independence(a1, a2, a3)
                 except ValueError:
                     got = None
                 exp = None if x_tol == [] else bool(x_tol[0])
+                if a3 != snap:
+                    return bad("impl!=spec:session-check_independence-mutates-argument", w(), key=key)
             if got is not exp:
-                return bad("impl!=model:session-check_independence", dict(w, impl=got, model=exp), key=key)
-        elif op == "getind":
-            cz = [[v, s] for v, s in ctx][: max(0, nv - 2)]
+                return bad("impl!=model:session-check_independence", w(impl=got, model=exp), key=key)
+            if a1 != n1 or a2 != n2:
+                return bad("impl!=spec:session-check_independence-mutates-argument", w(), key=key)
+        elif op == "empty-event":
+            if jpd.check_independence([], [nm[0]]) is not True or jpd.check_independence([nm[0]], []) is not True:
+                return bad("impl!=model:session-check_independence-empty-event", w(), key=key)
+        elif op == "getind" and strnames:
+            cz = [[v, x] for v, x in ctx][: max(0, nvn - 2)]
             trace[-1] = [op, cz]
-            g_ex, g_tol = drv.call("c18_getind", [J[0], J[1], J[2], cz, ATOL, RTOL])
-            try:
-                ind = jpd.get_independencies([(names[v], s) for v, s in cz] or None)
-                got = {frozenset((names.index(next(iter(a.event1))), names.index(next(iter(a.event2)))))
-                       for a in ind.get_assertions()}
-            except ValueError:
-                got = None
-            exp = None if g_tol == [] else {frozenset(p) for p in g_tol[0]}
-            if got != exp:
-                return bad("impl!=model:session-get_independencies",
-                           dict(w, impl=None if got is None else sorted(map(sorted, got)), model=g_tol), key=key)
+            g_ex, g_tol = drv.call("c18_getind", J()[:3] + [cz, ATOL, RTOL])
+            exp = None if g_tol == [] else {frozenset(p_) for p_ in g_tol[0]}
+            arg = [(nm[v], x) for v, x in cz]
+            for rep in range(2):        # twice: the first result is mutated in between
+                try:
+                    ind = jpd.get_independencies(list(arg) or None)
+                    got = {frozenset((nm.index(next(iter(a.event1))), nm.index(next(iter(a.event2)))))
+                           for a in ind.get_assertions()}
+                    ind.add_assertions([nm[0], nm[-1]] if nvn > 1 else [nm[0], "zz"])
+                    ind.get_assertions().append("junk")
+                except ValueError:
+                    got = None
+                if got != exp:
+                    return bad("impl!=model:session-get_independencies",
+                               w(rep=rep, impl=None if got is None else sorted(map(sorted, got)), model=g_tol), key=key)
         elif op == "marginal":
-            keep = sorted(rng.sample(V, rng.randint(1, nv)))
+            keep = sorted(rng.sample(V, rng.randint(1, nvn)))
             trace[-1] = [op, keep]
-            arg = [names[v] for v in keep]
-            m = jpd.marginal_distribution(arg if len(arg) > 1 or rng.random() < 0.5 else arg[0], inplace=False)
+            arg = [nm[v] for v in keep]
+            form = rng.choice(["list", "tuple", "set", "single"]) if len(arg) > 1 else rng.choice(["list", "single"])
+            a_ = {"list": list(arg), "tuple": tuple(arg), "set": set(arg), "single": arg[0]}[form]
+            if form == "single":
+                if isinstance(arg[0], tuple):
+                    a_ = [arg[0]]
+                keep = keep[:1]
+            m = jpd.marginal_distribution(a_, inplace=False)
             got = factor_cells(m)
-            for a in itertools.product(*[range(cards[v]) for v in keep]):
-                e = py_marg(cards, cells, keep, a)
+            for a in itertools.product(*[range(cd[v]) for v in keep]):
+                e = py_marg(cd, st["cells"], keep, a)
                 if not common.approx(got.get(tuple(zip(keep, a)), float("nan")), e):
-                    return bad("impl!=model:session-marginal_distribution", dict(w, keep=keep, at=list(a), model=str(e)), key=key)
-        elif op == "conditional":
-            cz = ctx[: max(0, nv - 1)] or [[perm[-1], rng.randrange(cards[perm[-1]])]]
+                    return bad("impl!=model:session-marginal_distribution", w(keep=keep, at=list(a), model=str(e)), key=key)
+            m.values[...] = 7.0
+        elif op == "conditional" and nvn >= 2:
+            cz = ctx[: max(0, nvn - 1)] or [[perm[-1], rng.randrange(cd[perm[-1]])]]
             trace[-1] = [op, cz]
-            pz = py_marg(cards, cells, [v for v, _ in cz], [s_ for _, s_ in cz])
+            pz = py_marg(cd, st["cells"], [v for v, _ in cz], [x for _, x in cz])
             try:
-                c = jpd.conditional_distribution([(names[v], s_) for v, s_ in cz], inplace=False)
+                c = jpd.conditional_distribution([(nm[v], x) for v, x in cz], inplace=False)
             except ValueError:
                 c = None
             if (c is None) != (pz == 0):
-                # pgmpy normalises 0/0 to nan without raising here; accept either nan table or the exception
                 if not (pz == 0 and c is not None and np.isnan(c.values).all()):
-                    return bad("impl!=model:session-conditional_distribution-zero", dict(w, ctx=cz, pz=str(pz)), key=key)
+                    return bad("impl!=model:session-conditional_distribution-zero", w(ctx=cz, pz=str(pz)), key=key)
             if c is not None and pz != 0:
-                keep = [v for v in V if v not in [u for u, _ in cz]]
+                keep, kc, kcells = cond_table(nm, cd, st["cells"], cz)
                 got = factor_cells(c)
-                for a in itertools.product(*[range(cards[v]) for v in keep]):
-                    e = py_marg(cards, cells, keep + [v for v, _ in cz], list(a) + [s_ for _, s_ in cz]) / pz
-                    if not common.approx(got.get(tuple(sorted(zip(keep, a))), float("nan")), e):
-                        return bad("impl!=model:session-conditional_distribution", dict(w, ctx=cz, at=list(a), model=str(e)), key=key)
+                for a in kcells:
+                    if not common.approx(got.get(tuple(sorted(zip(keep, a))), float("nan")), kcells[a]):
+                        return bad("impl!=model:session-conditional_distribution", w(ctx=cz, at=list(a), model=str(kcells[a])), key=key)
+                c.values[...] = 0.0
         elif op == "copy":
             c = jpd.copy()
             c.values[...] = 0.0
-            c.marginal_distribution([names[0]])
-        if not unchanged():
-            return bad("impl!=spec:session-query-mutated-the-table", dict(w, variables=list(map(str, jpd.variables)),
-                                                                         values=[float(x) for x in jpd.values.ravel()]), key=key)
+            if nvn > 1:
+                c.marginal_distribution([nm[0]])
+        elif op == "marginal-inplace" and nvn >= 3:
+            keep = sorted(rng.sample(V, rng.randint(2, nvn - 1)))
+            trace[-1] = [op, keep]
+            r = jpd.marginal_distribution([nm[v] for v in keep]) if rng.random() < 0.5 else \
+                jpd.marginal_distribution(tuple(nm[v] for v in keep), inplace=True)
+            if r is not None:
+                return bad("impl!=model:session-inplace-returns", w(), key=key)
+            newc = {a: py_marg(cd, st["cells"], keep, a) for a in itertools.product(*[cd[v] and range(cd[v]) for v in keep])}
+            st.update(names=[nm[v] for v in keep], cards=[cd[v] for v in keep], cells=newc)
+        elif op == "conditional-inplace" and nvn >= 3:
+            cz = [[perm[-1], rng.randrange(cd[perm[-1]])]]
+            if py_marg(cd, st["cells"], [cz[0][0]], [cz[0][1]]) == 0:
+                continue
+            trace[-1] = [op, cz]
+            arg = [(nm[v], x) for v, x in cz]
+            r = jpd.conditional_distribution(arg) if rng.random() < 0.5 else jpd.conditional_distribution(arg, inplace=True)
+            if r is not None:
+                return bad("impl!=model:session-inplace-returns", w(), key=key)
+            keep, kc, kcells = cond_table(nm, cd, st["cells"], cz)
+            st.update(names=[nm[v] for v in keep], cards=kc, cells=kcells)
+        elif op == "reject":
+            how = rng.choice(["string-event1", "string-event2", "string-event3", "non-string-rv", "bad-state", "bad-ctx-var",
+                              "not-normalised", "is_imap-non-model"])
+            trace[-1] = [op, how]
+            try:
+                if how == "string-event1":
+                    jpd.check_independence("ab", [nm[0]])
+                elif how == "string-event2":
+                    jpd.check_independence([nm[0]], "ab", None)
+                elif how == "string-event3":
+                    jpd.check_independence([nm[0]], [nm[-1]], "zz")
+                elif how == "non-string-rv":
+                    jpd.check_independence([nm[0]], [nm[-1]], [nm[0], 5], True)
+                elif how == "bad-state":
+                    jpd.check_independence([nm[0]], [nm[-1]], [(nm[0], cd[0] + 3)])
+                elif how == "bad-ctx-var":
+                    jpd.get_independencies([("no such variable", 0)])
+                elif how == "not-normalised":
+                    JPD(list(nm), list(cd), [2.0 * float(x) for x in jpd.values.ravel()])
+                else:
+                    jpd.is_imap(jpd)
+                return bad("impl!=model:session-invalid-call-accepted", w(how=how), key=key)
+            except (TypeError, ValueError, IndexError, KeyError):
+                pass
+        elif op == "minimal_imap" and strnames and 2 <= nvn <= 3:
+            order = perm[:]
+            oarg = [nm[v] for v in order]
+            snap = list(oarg)
+            es_ex, es_tol, fact = drv.call("c18_minimap", J()[:3] + [order, ATOL, RTOL])
+            exp = sorted({tuple(e) for e in es_tol})
+            for rep in range(2):
+                G = jpd.minimal_imap(oarg)
+                got = sorted((nm.index(u), nm.index(v)) for u, v in G.edges())
+                if got != exp:
+                    return bad("impl!=model:session-minimal_imap", w(order=order, rep=rep, impl=got, model=exp), key=key)
+                G.add_edge("junk", nm[0])
+            if oarg != snap:
+                return bad("impl!=spec:session-minimal_imap-mutates-order", w(), key=key)
+        if not same_state():
+            return bad("impl!=spec:session-query-mutated-the-table", w(variables=list(map(str, jpd.variables)),
+                                                                       values=[float(x) for x in jpd.values.ravel()]), key=key)
         tags.append("jpd-session op=%s" % op)
     return ok(nontrivial=len(set(cells.values())) > 1, key=key, tags=tags)
+
+
+def run_jbig(case, drv):
+    """9-10 binary variables in one table (product form, one correlated pair, optionally one conditionally
+    independent triple): check_independence and get_independencies against the model"""
+    import numpy as np
+    from pgmpy.factors.discrete import JointProbabilityDistribution as JPD
+    rng = random.Random(case["qseed"])
+    nv = case["nv"]
+    style = case["style"]
+    if style == "int":
+        names = rng.sample(range(1, nv + 6), nv)
+    elif style == "substr":
+        names = rng.sample(["x%d" % i for i in range(1, 13)] + ["x", "G", "G1", "G10"], nv)
+    else:
+        names = rng.sample(["a", "b", "c", "d", "e", "f", "g", "h", "i", "j", "k", "l"], nv)
+    strnames = style != "int"
+    cards = [2] * nv
+    marg = [[Fraction(k, 4), 1 - Fraction(k, 4)] for k in (rng.choice((1, 2, 3)) for _ in range(nv))]
+    u, v = rng.sample(range(nv), 2)
+    joint_uv = rng.choice([[[Fraction(3, 8), Fraction(1, 8)], [Fraction(1, 8), Fraction(3, 8)]],
+                           [[Fraction(1, 2), Fraction(0)], [Fraction(1, 4), Fraction(1, 4)]]])
+    cells = {}
+    for a in itertools.product(*map(range, cards)):
+        p_ = joint_uv[a[u]][a[v]]
+        for i in range(nv):
+            if i not in (u, v):
+                p_ *= marg[i][a[i]]
+        cells[a] = p_
+    asg = list(cells)
+    vals = np.array([float(cells[a]) for a in asg])
+    jpd = JPD(names, cards, vals)
+    J = [list(range(nv)), cards, [[list(a), cells[a]] for a in asg]]
+    key = common.canon_key(["jbig", nv, style, case["qseed"]])
+    w = {"names": list(map(str, names)), "dependent": [u, v], "qseed": case["qseed"]}
+    for _ in range(4):
+        x, y = (u, v) if rng.random() < 0.4 else rng.sample(range(nv), 2)
+        rest = [i for i in range(nv) if i not in (x, y)]
+        zs = rng.sample(rest, rng.randint(1, 2))
+        ctx = [[z, rng.randrange(2)] for z in zs]
+        m_ex, m_tol, c_ex, c_tol, x_ex, x_tol = drv.call("c18_checkind", J + [[x], [y], zs, ctx, ATOL, RTOL])
+        try:
+            gctx = jpd.check_independence([names[x]], [names[y]], [(names[z], s_) for z, s_ in ctx])
+        except ValueError:
+            gctx = None
+        got = [jpd.check_independence([names[x]], [names[y]]),
+               jpd.check_independence([names[x]], [names[y]], [names[z] for z in zs], True) if strnames else bool(c_tol),
+               gctx]
+        exp = [bool(m_tol), bool(c_tol), None if x_tol == [] else bool(x_tol[0])]
+        if got != exp:
+            return bad("impl!=model:big-check_independence", dict(w, x=x, y=y, Z=zs, ctx=ctx, impl=got, model=exp), key=key)
+    if strnames:
+        g_ex, g_tol = drv.call("c18_getind", J + [[], ATOL, RTOL])
+        ind = jpd.get_independencies()
+        got = {frozenset((names.index(next(iter(a.event1))), names.index(next(iter(a.event2))))) for a in ind.get_assertions()}
+        if got != {frozenset(p_) for p_ in g_tol[0]}:
+            return bad("impl!=model:big-get_independencies", dict(w, impl=sorted(map(sorted, got)), model=g_tol), key=key)
+    if not np.array_equal(jpd.values.ravel(), vals):
+        return bad("impl!=spec:big-query-mutated-the-table", w, key=key)
+    return ok(nontrivial=True, key=key, tags=["jpd big vars=%d names=%s" % (nv, style)])
 
 
 # ------------------------------------------------------------------ (e) graph-edit sessions
@@ -1100,6 +1460,16 @@ def run_ged(case, drv):
                 for u in sep:
                     if b not in m_atn(a, [t for t in sep if t != u]):
                         return bad("impl!=spec:graph-edit-minimal_dseparator-not-minimal", where(stage=stage, x=a, y=b, sep=sep, drop=u), key=key)
+        # I-equivalence of the edited object with the (fresh) initial graph and with a fresh copy of itself
+        fresh = DAG()
+        fresh.add_nodes_from([names[v] for v in nodes])
+        fresh.add_edges_from([(names[a], names[c]) for a, c in edges])
+        for other, oe, who in ((partner, partner_edges, "initial"), (fresh, list(edges), "fresh-copy")):
+            m = bool(drv.call("c18_iequiv", [[list(e) for e in edges], [list(e) for e in oe]])[0])
+            if g.is_iequivalent(other) is not m or other.is_iequivalent(g) is not m:
+                return bad("impl!=model:graph-edit-is_iequivalent", where(stage=stage, other=who, model=m), key=key)
+        if {frozenset(idx[t] for t in pr) for pr in g.get_immoralities()} != {frozenset(k[0]) for k in py_vstructs(edges)}:
+            return bad("impl!=model:graph-edit-get_immoralities", where(stage=stage), key=key)
         # local independencies
         for v in nodes:
             desc = _reach(edges, v)
@@ -1130,12 +1500,17 @@ def run_ged(case, drv):
                                  model_only=[list(map(sorted, t)) for t in sorted(exp - got, key=str)[:3]]), key=key)
         return None
 
+    partner_edges = list(edges)
+    partner = DAG()
+    partner.add_nodes_from([names[v] for v in nodes])
+    partner.add_edges_from([(names[a], names[c]) for a, c in partner_edges])
     b = query_all("initial")
     if b:
         return b
     nxt = n
     for rd in range(case["rounds"]):
-        ops = ["remove_edge"] * 4 + ["remove_edges_from"] * 2 + ["remove_node", "add_edge", "add_node"]
+        ops = ["remove_edge"] * 4 + ["remove_edges_from"] * 2 + ["remove_node", "remove_nodes_from", "add_edge", "add_node",
+                                                                   "clear-rebuild"]
         if case["cls"] == "DAG":
             ops += ["do"] * 2
         op = rng.choice(ops)
@@ -1165,6 +1540,32 @@ def run_ged(case, drv):
             nodes.remove(v)
             edges[:] = [e for e in edges if v not in e]
             trace.append([op, v])
+        elif op == "remove_nodes_from":
+            if len(nodes) <= 4:
+                continue
+            vs = rng.sample(nodes, 2)
+            g.remove_nodes_from([names[v] for v in vs])
+            for v in vs:
+                nodes.remove(v)
+            edges[:] = [e for e in edges if e[0] not in vs and e[1] not in vs]
+            trace.append([op, vs])
+        elif op == "clear-rebuild":
+            # networkx clear(), then a different graph on the same names through the object's own adders
+            g.clear()
+            _, ne = common.rand_dag(rng, len(nodes))
+            ren = dict(zip(range(len(nodes)), nodes))
+            edges[:] = [(ren[a], ren[c]) for a, c in ne]
+            if rng.random() < 0.5:
+                g.add_nodes_from([names[v] for v in nodes])
+                g.add_edges_from([(names[a], names[c]) for a, c in edges])
+            else:
+                for v in nodes:
+                    g.add_node(names[v])
+                for a, c in edges:
+                    g.add_edge(names[a], names[c])
+            if case["cls"] == "DAG":
+                g.latents = set()
+            trace.append([op, [list(e) for e in edges]])
         elif op == "do":
             vs = [w] if rd == 0 and case["gadget"] else rng.sample(nodes, rng.randint(1, 2))
             r = g.do([names[v] for v in vs] if len(vs) > 1 or rng.random() < 0.5 else names[vs[0]], inplace=True)
@@ -1213,4 +1614,6 @@ def run_case(case, drv):
         return run_ged(case, drv)
     if k == "jses":
         return run_jses(case, drv)
+    if k == "jbig":
+        return run_jbig(case, drv)
     return bad("harness:unknown-case-kind", {"kind": k})
